@@ -14,6 +14,7 @@ import (
 	"path/filepath"
 	"runtime"
 	"runtime/debug"
+	"runtime/metrics"
 	"strings"
 	"syscall"
 	"testing"
@@ -29,6 +30,8 @@ const (
 	recycleSys    = 1 << 30  // a worker whose runtime holds more than this from the OS exits after answering
 	maxObjects    = 256      // objects visited per file (harness cap, files are <= 256 KiB)
 	maxChunkSteps = 512      // ChunkIterator steps per dataset (harness cap)
+	bigAlloc      = 64 << 20 // one block of this size allocated while reading a file of <= 256 KiB is a failure ("bigalloc")
+	profileRate   = 1 << 20  // heap profile sampling: every block >= 1 MiB is recorded with its stack
 	libPrefix     = "github.com/scigolib/hdf5"
 	harnessPrefix = "github.com/scigolib/hdf5/verif"
 )
@@ -49,6 +52,7 @@ type PanicRec struct {
 // Resp is one answer line (worker -> driver).
 type Resp struct {
 	ID      int64      `json:"id"`
+	Big     []PanicRec `json:"big,omitempty"` // blocks >= bigAlloc allocated by one call (Msg = size class)
 	OpenErr string     `json:"open_err,omitempty"`
 	Ops     int        `json:"ops"`
 	Errs    int        `json:"errs"`
@@ -86,11 +90,79 @@ func libFrames() []string {
 
 type caseRun struct {
 	resp Resp
+	stop bool // a big allocation was seen: the rest of the case would run in a polluted address space
 }
 
-// guard runs one API call under recover().
+var allocSample = []metrics.Sample{{Name: "/gc/heap/allocs:bytes"}}
+
+func allocBytes() uint64 {
+	metrics.Read(allocSample)
+	if allocSample[0].Value.Kind() == metrics.KindUint64 {
+		return allocSample[0].Value.Uint64()
+	}
+	return 0
+}
+
+type profKey [32]uintptr
+
+var profSeen = map[profKey][2]int64{}
+
+// bigBlocks consults the heap profile for blocks >= bigAlloc allocated since the previous call.
+func bigBlocks(op string) []PanicRec {
+	runtime.GC() // publishes the allocations made so far into the profile
+	recs := make([]runtime.MemProfileRecord, 256)
+	for {
+		n, ok := runtime.MemProfile(recs, true)
+		if ok {
+			recs = recs[:n]
+			break
+		}
+		recs = make([]runtime.MemProfileRecord, n+64)
+	}
+	var out []PanicRec
+	for i := range recs {
+		r := &recs[i]
+		k := profKey(r.Stack0)
+		prev := profSeen[k]
+		dB, dO := r.AllocBytes-prev[0], r.AllocObjects-prev[1]
+		profSeen[k] = [2]int64{r.AllocBytes, r.AllocObjects}
+		if dO <= 0 || dB/dO < bigAlloc {
+			continue
+		}
+		var frames []string
+		fr := runtime.CallersFrames(r.Stack())
+		for {
+			f, more := fr.Next()
+			if isLibFrame(f.Function) {
+				frames = append(frames, fmt.Sprintf("%s@%s:%d", f.Function, filepath.Base(f.File), f.Line))
+			}
+			if !more {
+				break
+			}
+		}
+		if len(frames) > 24 {
+			frames = frames[:24]
+		}
+		out = append(out, PanicRec{Op: op, Msg: fmt.Sprintf("block of %d MiB", (dB/dO)>>20), Frames: frames})
+	}
+	return out
+}
+
+// guard runs one API call under recover() and checks afterwards whether it allocated a disproportionate block.
 func (cr *caseRun) guard(op string, f func() error) {
+	if cr.stop {
+		return
+	}
 	cr.resp.Ops++
+	a0 := allocBytes()
+	defer func() {
+		if allocBytes()-a0 >= bigAlloc {
+			if big := bigBlocks(op); len(big) > 0 {
+				cr.resp.Big = append(cr.resp.Big, big...)
+				cr.stop = true
+			}
+		}
+	}()
 	defer func() {
 		if p := recover(); p != nil {
 			msg := fmt.Sprint(p)
@@ -241,6 +313,9 @@ func runFile(path string) Resp {
 	})
 	cr.resp.Objects = len(objs)
 	for _, o := range objs {
+		if cr.stop {
+			break
+		}
 		switch x := o.(type) {
 		case *hdf5.Group:
 			cr.guard("Group.Children", func() error { _ = x.Children(); _ = x.Name(); return nil })
@@ -264,6 +339,7 @@ func TestWorker(t *testing.T) {
 		fmt.Fprintf(os.Stderr, "worker: setrlimit: %v\n", err)
 	}
 	debug.SetMaxStack(maxStack)
+	runtime.MemProfileRate = profileRate
 	debug.SetTraceback("all")
 
 	// SIGUSR1: dump all goroutine stacks to stderr without dying (the driver samples a slow case this way)
@@ -296,7 +372,7 @@ func TestWorker(t *testing.T) {
 		rs.ID = rq.ID
 		runtime.ReadMemStats(&ms)
 		rs.AllocMB = int64((ms.TotalAlloc - before) >> 20)
-		if ms.Sys > recycleSys {
+		if ms.Sys > recycleSys || len(rs.Big) > 0 {
 			rs.Recycle = true
 		}
 		b, _ := json.Marshal(rs)
